@@ -41,6 +41,11 @@ def main():
         rows.append(row)
         own = meta["property"] in row["caught_by_properties"]
         status = "caught" if own else ("cross-only" if row["caught_by_properties"] else "MISSED")
+        if not row["applies_to_repo"]:
+            status = "STALE-PATCH"
+        if status == "STALE-PATCH":
+            print("%-8s %-10s the patch no longer applies to /repo's head (later fix commits touch the same lines)" % (sid, status))
+            continue
         if status == "MISSED":
             missed.append(sid)
         if status == "cross-only":
